@@ -738,3 +738,18 @@ def heap_engine(prop, tier, replay, t0):
 
 
 ENGINES['C19'] = heap_engine
+
+
+def c15_engine(prop, tier, replay, t0):
+    vlib.build_harness()
+    verdicts, st, g, res, trace, nrows = table_run('Tab_C15', 'httptab')
+    return report_table(prop, tier, t0, ['C15'], verdicts, st, g, res, trace, nrows, 'Tab_C15',
+                        'rows = HTTP method x Content-Type header (with/without parameters, with whitespace before them, other media types, none) x body class (valid, {}, truncated, array, string, number, null, empty, malformed form) '
+                        'x presentation of a multi-valued parameter (missing, single, repeated, []-suffixed single / repeated / missing); one real *http.Request per row with different sentinels in body and query; '
+                        'a fixed schema with a recording struct-level test, a pre-filled destination; observed: issue set, whether the schema ran, untouched destination, which source the name came from, list/string presentation; '
+                        'every row also through Ptr(Struct); distinct = table rows',
+                        ['form bodies are read only for POST/PUT/PATCH, as net/http defines', 'Ptr(Struct) on the empty JSON document {} is excluded: an existing test pins it as an absent pointer', 'multipart forms and custom Config.Parsers are not covered'],
+                        replay=bool(replay), known=vlib.load_known())
+
+
+ENGINES['C15'] = c15_engine
